@@ -113,6 +113,11 @@ func (w *world) Run(t *rt.Tape, trace bool) *core.Result {
 			if t.Choose(rt.SGen, 3) == 0 {
 				n = 1 + t.Choose(rt.SGen, 6000)
 			}
+			if !small && i == 0 && t.Choose(rt.SGen, 150) == 0 {
+				// bulk preprocessing: more than 2^15 elements (a megabyte of packed vector and more)
+				n = []int{32769, 32768, 33000, 40000}[t.Choose(rt.SGen, 4)]
+				calls = 1
+			}
 			if small && n > 300 {
 				n = 1 + n%300
 			}
